@@ -102,6 +102,12 @@ def check_C07(tier):
     env = Env()
     conf = extract_conf(env)
     calls = search_family(rep, env, conf, 'unfold', tier, 'C07 family: first string of every type x <= MaxEdits syntactic edits')
+    # the two flags of unfold_search on a seeded sample of the same family (specification growth beyond the property's statement)
+    rnd = random.Random(SEED)
+    sample = rnd.sample(calls, min(len(calls), 3000 if tier == 'quick' else 20000))
+    flagged = [dict(c, extrapolate=True) for c in sample[::2]] + [dict(c, uniquify=True) for c in sample[1::2]]
+    if tier != 'c20':
+        K.code_to_spec(rep, env, conf, flagged, 'unfold_search(s, do_extrapolate=True) / (s, do_uniquify=True) on a sample of the family', tag='unfoldflags')
     rep.exhaustive = True
     for t in ('unfold:error', 'unfold:nothing', 'unfold:one', 'unfold:many'):
         rep.guard(t in rep.cover or not calls, '%s never exercised' % t)
